@@ -46,12 +46,21 @@ o 240202#B2 b todo to move %bob
 
 - 240203#B3 in b section
 """,
+    # no note of this page has a property; its last note is the only carrier of +rocket
+    "t.zo": """# T page
+
+- 240401#T1 first on t
+- 240402#T2 middle, goes away
+- 240403#T3 last one +rocket
+""",
 }
 
 EVENTS = ["edit_body_a", "kind_a", "add_note_a", "del_note_a", "move_note", "add_page_c",
-          "del_page_b", "rename_b_d", "restore_b", "title_tags_a", "header_b", "drop_last_tag", "R", "Rp", "D"]
+          "del_page_b", "rename_b_d", "restore_b", "title_tags_a", "header_b", "drop_last_tag", "del_note_t",
+          "R", "Rp", "D"]
 
 QUERIES = [
+    "S note W +rocket O alpha G none", "S + O alpha",
     "S note O alpha G none", "S note W #shared O alpha G none", "S note W o O alpha G none",
     "S note W #only_here O alpha G none", "S note W key:* O alpha G none", "S note W [[a]] O alpha G none",
     "S note W [[sub/b]] O alpha G none", "S # O alpha", "S prop O alpha", "S file O alpha",
@@ -144,6 +153,14 @@ def apply_edit(zd: Path, ev: str, guards: dict) -> bool:
         else:
             b.parent.mkdir(parents=True, exist_ok=True)
             b.write_text(guards.get("b_text") or BASE["sub/b.zo"])
+        return True
+    if ev == "del_note_t":
+        tp = zd / "t.zo"
+        lines = tp.read_text().split("\n")
+        keep = [l for l in lines if "240402#T2" not in l]
+        if len(keep) == len(lines):
+            return False
+        tp.write_text("\n".join(keep))
         return True
     if ev == "title_tags_a":
         t = a.read_text()
@@ -338,7 +355,7 @@ def run(ctx: F.Ctx):
         "rule": (
             "BFS from 4 initial states (indexed two-page directory; same with a ZID-less note "
             "pending; same after an earlier stamped edit; same after a page was deleted and the "
-            "index followed) over 15 events: edit a body, change a "
+            "index followed) over 16 events: edit a body, change a "
             "todo's kind, add a ZID-less note, delete a note, move a note between pages, add a page, "
             "delete a page, rename a page, bring the vanished page back byte-identical, edit title-line tags, edit a section header, drop the "
             "last holder of a tag, plain reindex, reindex of one explicit path, advance the day. "
